@@ -326,6 +326,20 @@ func runC09(c *fw.Ctx) {
 					}
 					if !resolveLocal {
 						c09Fragments(c, label, p.Fset, pkgPath, af, info, tpaths, p.Files[k].Src)
+						// a resolver made before type checking has filled the Uses map it was given (one
+						// types.Info that keeps growing, as when several packages are checked into it)
+						late := map[*ast.Ident]types.Object{}
+						lres := gotypes.New(late)
+						for ik, iv := range info.Uses {
+							late[ik] = iv
+						}
+						dl := decorator.NewDecoratorWithImports(p.Fset, pkgPath, lres)
+						if dfl, err := dl.DecorateFile(af); err != nil {
+							c.Violate("decorate-error", "decorate-error:gotypes-late-uses", id+": "+err.Error(), p.Files[k].Src)
+						} else {
+							c09CheckFile(c, label+"/resolver-made-before-type-checking", dl, af, dfl, info, pkg, false, p.Files[k].Src)
+							c.Count("files:late-uses", 1)
+						}
 						c09Goast(c, label, p.Fset, af, info, tpaths, importNamesOf(af, info), p.Files[k].Src)
 						// the decorator that Load builds for a loaded package: go/packages gives the test
 						// variant of a package an ID that differs from its import path
